@@ -24,12 +24,19 @@ def check(run, only=None):
         from ..kani import Overlay, decide, run_kani
         from .. import parsecells
         shs = printsmt.string_render_harnesses(run.tier) if run.tier == "thorough" else []
+        # decoder side of the string round trip on concrete line-ending bodies (raw CR / LF / TAB are printed verbatim)
+        upre, uhs = parsecells.gen_unescape(syn, run.tier, mode="c08")
+        lits = [h for h in uhs if "literal_raw" in h.name]
+        for h in lits:
+            h.name = h.name.replace("c08_", "c16_")
+            h.cell = h.name
+        shs = shs + lits
         ov = Overlay(run, "c16")
-        ov.preamble(parsecells.HELPERS, "use crate::value::Value;")
+        ov.preamble(parsecells.HELPERS, "use crate::value::Value;" + parsecells.PRE_BASE + upre)
         for h in shs:
             ov.add(parsecells.HELPERS, h)
         ov.write()
-        res = run_kani(run, shs, jobs=2, timeout_s=2400, tag="strings") if shs else {}
+        res = run_kani(run, shs, jobs=4, timeout_s=2400 if run.tier == "thorough" else 240, tag="strings") if shs else {}
 
         def unrepro(h, r, logs):
             run.notes.append(f"{h.cell}: the rendering differs from the canonical escaping but round-trips natively")
@@ -50,8 +57,19 @@ def check(run, only=None):
 def replay(run, path):
     import json
     rec = json.load(open(path))
-    helper = synx.Helper(run)
     rp = rec["replay"]
+    if "harness" in rp:
+        from ..replay import replay_file
+        from .. import parsecells
+        syn = synx.Syntax(run)
+        upre, uhs = parsecells.gen_unescape(syn, "thorough", mode="c08")
+        lits = [h for h in uhs if "literal_raw" in h.name]
+        for h in lits:
+            h.name = h.name.replace("c08_", "c16_")
+        allh = printsmt.string_render_harnesses("thorough") + lits
+        return replay_file(run, path, gen_all=lambda: allh, file=parsecells.HELPERS, tag="c16",
+                           preamble="use crate::value::Value;" + parsecells.PRE_BASE + upre)
+    helper = synx.Helper(run)
     res = helper.call("roundtrip", [rp["text"]])[0]
     print(f"replay: {rp['text']!r} -> {res}")
     if res.startswith("DIFF") or res.startswith("PANIC"):
